@@ -60,3 +60,33 @@ Definition text_true (t : text) : bool := match t with [] => false | _ :: _ => t
 Definition hdr_true (h : option (list text)) : bool := match h with Some (_ :: _) => true | _ => false end.
 (* s.split(d): only one-character separators are given a meaning (the library passes a tab) *)
 Definition str_split (s d : text) : list text := match d with [c] => split_on c s | _ => [s] end.
+
+(* ---- second region of the reader (target tsvread2) ---- *)
+(* [f(x) for x in l] when f can raise: the first failure is the result *)
+Fixpoint rmap {A B} (f : A -> result B) (l : list A) : result (list B) :=
+  match l with
+  | [] => ROk []
+  | x :: t => rbind (f x) (fun y => rbind (rmap f t) (fun r => ROk (y :: r)))
+  end.
+(* l[n:] *)
+Definition list_from {A} (l : list A) (n : nat) : list A := skipn n l.
+(* s.rsplit(d, 1): cut at the last separator only; a string without separator stays whole *)
+Definition str_rsplit1 (s d : text) : list text :=
+  match d with
+  | [c] => let ps := split_on c s in
+           match ps with
+           | _ :: _ :: _ => [join c (removelast ps); last ps []]
+           | _ => ps
+           end
+  | _ => [s]
+  end.
+(* l[-1]: IndexError on the empty list *)
+Definition list_last (l : list text) : result text :=
+  match l with [] => RErr E_OTHER | _ :: _ => ROk (last l []) end.
+(* header[:], header[-1], header[:-1] on the header variable: TypeError while it is still False *)
+Definition hdr_copy (h : option (list text)) : result (list text) :=
+  match h with None => RErr E_TYPE | Some l => ROk l end.
+Definition hdr_last (h : option (list text)) : result text :=
+  match h with None => RErr E_TYPE | Some l => list_last l end.
+Definition hdr_init (h : option (list text)) : result (list text) :=
+  match h with None => RErr E_TYPE | Some l => ROk (removelast l) end.
